@@ -160,6 +160,11 @@ pub struct Chain {
     pub accounts: Vec<Keys>,
     pub foreign: Keys,
     pub ironwood: bool,
+    /// note commitment tree state as of block `base` (empty unless the wallet was born into a non-empty chain)
+    pub init: (SapFrontier, OrchFrontier, OrchFrontier),
+    pub init_hash: [u8; 32],
+    /// shards (2^16 leaves) completed by fabricated blocks: (pool, shard index, level-16 root, height)
+    pub shard_roots: Vec<(Pool, u64, [u8; 32], u32)>,
 }
 
 fn sap_node(cmu: &[u8]) -> sapling::Node {
@@ -184,7 +189,22 @@ impl Chain {
             accounts,
             foreign: Keys::random(rng),
             ironwood,
+            init: (SapFrontier::empty(), OrchFrontier::empty(), OrchFrontier::empty()),
+            init_hash: [0u8; 32],
+            shard_roots: vec![],
         }
+    }
+
+    /// A chain that continues from a given tree state at `base` (see `W::sharded`).
+    pub fn with_initial(base: u32, accounts: Vec<Keys>, rng: &mut ChaChaRng, ironwood: bool, init: &ChainState) -> Self {
+        let mut c = Chain::new(base, accounts, rng, ironwood);
+        c.init = (init.final_sapling_tree().clone(), init.final_orchard_tree().clone(), init.final_ironwood_tree().clone());
+        c.init_hash = init.block_hash().0;
+        c
+    }
+
+    fn init_sizes(&self) -> [u32; 3] {
+        [self.init.0.tree_size() as u32, self.init.1.tree_size() as u32, self.init.2.tree_size() as u32]
     }
 
     pub fn top(&self) -> u32 {
@@ -192,24 +212,25 @@ impl Chain {
     }
 
     pub fn hash_at(&self, h: u32) -> [u8; 32] {
-        self.blocks.get(&h).map(|b| b.hash).unwrap_or([0u8; 32])
+        self.blocks.get(&h).map(|b| b.hash).unwrap_or(self.init_hash)
     }
 
     pub fn sizes_at(&self, h: u32) -> [u32; 3] {
-        self.blocks.get(&h).map(|b| b.sizes).unwrap_or([0; 3])
+        self.blocks.get(&h).map(|b| b.sizes).unwrap_or(self.init_sizes())
     }
 
     /// The chain state as of the end of block `h` (empty below the first fabricated block).
     pub fn state_at(&self, h: u32) -> ChainState {
         match self.blocks.get(&h) {
             Some(b) => ChainState::new(BlockHeight::from(h), BlockHash(b.hash), b.sap.clone(), b.orch.clone(), b.iron.clone()),
-            None => ChainState::empty(BlockHeight::from(h), BlockHash([0u8; 32])),
+            None => ChainState::new(BlockHeight::from(h), BlockHash(self.init_hash), self.init.0.clone(), self.init.1.clone(), self.init.2.clone()),
         }
     }
 
     /// Drops every block above `h` (the environment's half of a reorg).
     pub fn truncate(&mut self, h: u32) {
         self.blocks.split_off(&(h + 1));
+        self.shard_roots.retain(|r| r.3 <= h);
     }
 
     /// Notes created on the current chain whose nullifier the harness knows and that no block of
@@ -254,7 +275,7 @@ impl Chain {
         let prev_hash = self.hash_at(prev_h);
         let (mut sap, mut orch, mut iron, mut sizes) = match self.blocks.get(&prev_h) {
             Some(b) => (b.sap.clone(), b.orch.clone(), b.iron.clone(), b.sizes),
-            None => (SapFrontier::empty(), OrchFrontier::empty(), OrchFrontier::empty(), [0u32; 3]),
+            None => (self.init.0.clone(), self.init.1.clone(), self.init.2.clone(), self.init_sizes()),
         };
         let bh = BlockHeight::from(height);
         let mut cb = CompactBlock { height: height as u64, ..Default::default() };
@@ -263,6 +284,7 @@ impl Chain {
         cb.hash = hash.to_vec();
         cb.prev_hash = prev_hash.to_vec();
         let mut abs_txs = vec![];
+        let mut new_shards: Vec<(Pool, u64, [u8; 32], u32)> = vec![];
 
         for req in txs {
             let mut ctx = CompactTx::default();
@@ -358,14 +380,26 @@ impl Chain {
             for out in &ctx.outputs {
                 sap.append(sap_node(&out.cmu));
                 sizes[0] += 1;
+                if sizes[0] % 65536 == 0 {
+                    let r = sap.value().unwrap().root(Some(incrementalmerkletree::Level::from(16))).to_bytes();
+                    new_shards.push((Pool::Sapling, (sizes[0] / 65536 - 1) as u64, r, height));
+                }
             }
             for act in &ctx.actions {
                 orch.append(orch_node(&act.cmx));
                 sizes[1] += 1;
+                if sizes[1] % 65536 == 0 {
+                    let r = orch.value().unwrap().root(Some(incrementalmerkletree::Level::from(16))).to_bytes();
+                    new_shards.push((Pool::Orchard, (sizes[1] / 65536 - 1) as u64, r, height));
+                }
             }
             for act in &ctx.ironwood_actions {
                 iron.append(orch_node(&act.cmx));
                 sizes[2] += 1;
+                if sizes[2] % 65536 == 0 {
+                    let r = iron.value().unwrap().root(Some(incrementalmerkletree::Level::from(16))).to_bytes();
+                    new_shards.push((Pool::Ironwood, (sizes[2] / 65536 - 1) as u64, r, height));
+                }
             }
             self.tx_by_id.insert(txid, uid);
             cb.vtx.push(ctx);
@@ -383,14 +417,26 @@ impl Chain {
             for out in &ctx.outputs {
                 sap.append(sap_node(&out.cmu));
                 sizes[0] += 1;
+                if sizes[0] % 65536 == 0 {
+                    let r = sap.value().unwrap().root(Some(incrementalmerkletree::Level::from(16))).to_bytes();
+                    new_shards.push((Pool::Sapling, (sizes[0] / 65536 - 1) as u64, r, height));
+                }
             }
             for act in &ctx.actions {
                 orch.append(orch_node(&act.cmx));
                 sizes[1] += 1;
+                if sizes[1] % 65536 == 0 {
+                    let r = orch.value().unwrap().root(Some(incrementalmerkletree::Level::from(16))).to_bytes();
+                    new_shards.push((Pool::Orchard, (sizes[1] / 65536 - 1) as u64, r, height));
+                }
             }
             for act in &ctx.ironwood_actions {
                 iron.append(orch_node(&act.cmx));
                 sizes[2] += 1;
+                if sizes[2] % 65536 == 0 {
+                    let r = iron.value().unwrap().root(Some(incrementalmerkletree::Level::from(16))).to_bytes();
+                    new_shards.push((Pool::Ironwood, (sizes[2] / 65536 - 1) as u64, r, height));
+                }
             }
             // position-dependent Sapling nullifiers of re-mined notes are no longer known
             for o in &abs.outs {
@@ -409,6 +455,7 @@ impl Chain {
         let uid = self.next_blk;
         self.next_blk += 1;
         self.blocks.insert(height, Blk { height, uid, hash, cb, txs: abs_txs, sap, orch, iron, sizes });
+        self.shard_roots.extend(new_shards);
         height
     }
 }
@@ -420,7 +467,12 @@ impl Chain {
         let empty_s = || sapling::Node::empty_root(incrementalmerkletree::Level::from(sapling::NOTE_COMMITMENT_TREE_DEPTH)).to_bytes();
         let empty_o = || MerkleHashOrchard::empty_root(incrementalmerkletree::Level::from(orchard::NOTE_COMMITMENT_TREE_DEPTH as u8)).to_bytes();
         if h == self.base {
-            return Some(match pool { Pool::Sapling => empty_s(), _ => empty_o() });
+            let _ = (&empty_s, &empty_o);
+            return Some(match pool {
+                Pool::Sapling => self.init.0.root().to_bytes(),
+                Pool::Orchard => self.init.1.root().to_bytes(),
+                Pool::Ironwood => self.init.2.root().to_bytes(),
+            });
         }
         self.blocks.get(&h).map(|b| match pool {
             Pool::Sapling => b.sap.root().to_bytes(),
